@@ -226,6 +226,11 @@ def run(db, rep, tier):
             continue
         seen.add(site)
         rep.fail(rule, site, where, expected, found, function)
+    # operand roles of the user element-wise operation (an asymmetric operation applied the wrong way round stores other
+    # values than the naive evaluation)
+    for label, (ok, detail, where, fn) in sorted(data['steal'].items()):
+        if not ok and 'change roles' in detail:
+            rep.fail('B.alias', label + '/roles', where, 'op(a[i], b[i]) with a the first and b the second operand of the expression', detail, fn)
     rep.floor('B.alias', nexpr, 1000)
     rep.sample('B.alias', 'e.g. v = iCommutator(v,b) with v owned: evaluated through a temporary, result equals the naive value; v -= a.Evolve(b,t) with v external of another size: throws, v untouched')
     check_single_assignment(db, rep, tier)
